@@ -161,6 +161,14 @@ func (e *fnEnc) run() (err error) {
 		// a free variable is a pointer to the captured variable
 		e.paramVal[p.Name()] = SVal{t: v, typ: p.Type(), fvPtr: true}
 	}
+	// distinct captured variables are distinct cells
+	for i, p := range fn.FreeVars {
+		for _, q := range fn.FreeVars[i+1:] {
+			if e.sortOf(p.Type()) == e.sortOf(q.Type()) {
+				e.assert(not(eq(e.vals[p], e.vals[q])))
+			}
+		}
+	}
 
 	e.assumeGlobalInvs(st)
 	// requires
@@ -917,6 +925,7 @@ func collectIdents(x Expr, out map[string]bool) {
 			collectIdents(a, out)
 		}
 	case *ESel:
+		out[x.Name] = true // pkg.Global
 		collectIdents(x.X, out)
 	case *EIndex:
 		collectIdents(x.X, out)
